@@ -607,6 +607,9 @@ func one(c *core.Case, h *handshake, f fault) {
 	sm := sample{Handshake: h.Name, Role: h.Role, Fault: f, Golden: g}
 	c.Sample(sm)
 	if f.Kind == "golden" {
+		if strings.Contains(h.Key, "layer") || strings.Contains(h.Key, "starttls-only") {
+			c.Count("voluntary_restart_handshakes", 1)
+		}
 		c.Count("golden_runs", 1)
 		if g.R > h.MaxBytes || g.W > h.MaxBytes || g.NOps > h.MaxOps {
 			c.Inconclusive("golden run of %s (R=%d W=%d ops=%d) exceeds the enumeration bounds (%d bytes, %d ops)", h.Name, g.R, g.W, g.NOps, h.MaxBytes, h.MaxOps)
@@ -732,7 +735,24 @@ func one(c *core.Case, h *handshake, f fault) {
 		}
 		switch h.Expect {
 		case "ok":
+			if r.returned && r.err == nil && ready && !handshakeRanToItsEnd(r) {
+				// Ready although the peer still had exchanges to go (every one of
+				// them is needed: the scripts contain nothing optional): whatever
+				// happens to the connection in the remainder can no longer be
+				// noticed, the negotiation has not genuinely completed.
+				restart := ""
+				for _, rec := range r.log.All() {
+					if rec.Kind == "negotiate" && rec.Restart {
+						restart = fmt.Sprintf("; feature %q had asked for a stream restart that was never carried out", rec.Feature)
+					}
+				}
+				c.Violate("failopen:"+h.Key+":incomplete", "%s (%s): the constructor returned a nil error and state %#x after %d of the peer's %d exchanges%s; steps %+v", h.Name, h.Role, st, peerDone(r), peerSteps(r), restart, r.log.All())
+				return
+			}
 			if r.returned && r.err == nil && ready {
+				if f.Kind == "golden" {
+					c.Count("golden_runs_that_consumed_the_whole_script", 1)
+				}
 				c.Count("faultfree_ok", 1)
 				if f.Kind == "golden" {
 					c.Count("golden_ok", 1)
@@ -860,6 +880,25 @@ func one(c *core.Case, h *handshake, f fault) {
 	c.Count("failed_closed", 1)
 }
 
+// handshakeRanToItsEnd reports whether the library went through everything
+// the peer's script holds.
+func handshakeRanToItsEnd(r *run) bool {
+	if r.a.peer != nil {
+		return r.a.peer.Done() == r.a.peer.Steps()
+	}
+	if r.tls != nil {
+		return r.tls.finished.Load()
+	}
+	return true
+}
+
+func peerSteps(r *run) int {
+	if r.a.peer == nil {
+		return -1
+	}
+	return r.a.peer.Steps()
+}
+
 func peerDone(r *run) int {
 	if r.a.peer == nil {
 		return -1
@@ -917,7 +956,7 @@ func Prop() *core.Prop {
 		Run:        runCase,
 		Exhaustive: func(string) bool { return true },
 		Require: []string{"golden_ok", "golden_within_bounds", "fault_runs:eof", "fault_runs:wrbreak", "fault_runs:rdfail", "fault_runs:wrfail",
-			"fault_runs:cancel-silent", "fault_runs:cancel-live", "fault_runs:cancel-blocked", "fault_runs:wrlost", "write_lost:last_write_of_handshake", "fault_runs:cancel-nodl", "fault_runs:precancel", "fault_runs:rdtimeout", "fault_runs:wrtimeout", "parse_errors_of_unusable_features", "cancellations_without_deadlines", "sasl_response_writes_lost", "refusal_shapes_failed_closed", "cancellations_issued", "cancellations_that_reached_the_deadlines",
+			"fault_runs:cancel-silent", "fault_runs:cancel-live", "fault_runs:cancel-blocked", "fault_runs:wrlost", "write_lost:last_write_of_handshake", "fault_runs:cancel-nodl", "fault_runs:precancel", "fault_runs:rdtimeout", "fault_runs:wrtimeout", "parse_errors_of_unusable_features", "cancellations_without_deadlines", "sasl_response_writes_lost", "refusal_shapes_failed_closed", "golden_runs_that_consumed_the_whole_script", "voluntary_restart_handshakes", "cancellations_issued", "cancellations_that_reached_the_deadlines",
 			"step_errors_logged", "step_errors_logged:negotiate", "step_errors_logged:list", "step_errors_logged:parse", "failed_steps_with_mask", "failed_closed"},
 		Witnesses: map[string]func(*core.Case){
 			"swallow:voluntary:negotiate":           witness("volfail-init", "golden", 0),
